@@ -6,6 +6,13 @@
 
 use std::io::{BufRead, BufReader};
 use std::sync::Arc;
+// Verification seam: under `--cfg verif_shuttle` (set only by the simulator crate
+// in /verif, which compiles this file into itself and provides the `shuttle`
+// dependency) the configuration atomics are shuttle's, so a controlled scheduler
+// decides every interleaving of concurrent setters and snapshot readers.
+#[cfg(verif_shuttle)]
+use shuttle::sync::atomic::{AtomicBool, AtomicI32, AtomicU8, AtomicU64, Ordering};
+#[cfg(not(verif_shuttle))]
 use std::sync::atomic::{AtomicBool, AtomicI32, AtomicU8, AtomicU64, Ordering};
 
 // The hot-path snapshot type + its default constants are core; they live in
